@@ -98,6 +98,9 @@ def gen_num(e, d):
     r = e.r
     if d <= 0:
         return var_or(e, 'num', lambda: r.choice(NUMS))
+    if r.random() < 0.03:
+        # a host float: legal on its own and with other floats/ints, a type error against decimals (Python semantics either way)
+        return r.choice(['h_float', '(h_float * 2)', '(h_float + h_int)', 'round(h_float, 1)', 'int(h_float)', '(-h_float)', 'str(h_float)', '(h_float < 1)', 'abs(h_float)'])
     c = r.randrange(24)
     if c < 3:
         return var_or(e, 'num', lambda: r.choice(NUMS))
@@ -528,7 +531,7 @@ def gen_statement(e, d):
             return '\n'.join(lines)
     if c == 18 and e.vars:
         # re-assignment of an existing variable with a value of its type
-        n = r.choice([x for x in e.vars if not (isinstance(e.vars[x], tuple) and e.vars[x][0] == 'fn')] or [None])
+        n = r.choice([x for x in e.vars if e.vars[x] != 'xnum' and not (isinstance(e.vars[x], tuple) and e.vars[x][0] == 'fn')] or [None])
         if n:
             e.lens.pop(n, None)
             e.keys.pop(n, None)
@@ -581,17 +584,23 @@ def host_names(r):
         'hm': _hm, 'try_': _try,
         'h_num': r.choice([5, D('2.5'), 0, -3, D('100')]), 'h_int': 7, 'h_str': r.choice(['host', 'Hello', '']), 'h_list': [D(1), D(2), 3], 'h_strs': ['b', 'a', 'c'],
         'h_dict': {'a': D(1), 'b': 2}, 'h_bool': True, 'h_none': None, 'h_nested': [[D(1)], [D(2), D(3)]],
+        # numbers of every host-suppliable kind and of unusual magnitude / representation
+        'h_float': r.choice([2.5, -0.0, 1e300, 0.1, 3.0]), 'h_big': r.choice([10 ** 30, -(10 ** 18), 2 ** 64]), 'h_t': r.choice([True, False]),
+        'h_dexp': r.choice([D('1E+3'), D('-0'), D('1.50'), D('0E-7'), D('123456789012345678901234567.5'), D('1E-30')]),
+        'h_tuple': (D(1), 'a'), 'h_long': [D(i) for i in range(300)], 'h_ustr': r.choice(['\u0301a\u0301', 'a\U0001f600b', '\u202eabc', 'A\u00df\u0130', '\ud800', 'x' * 5000]),
     }
 
 
-HOST_TYPES = {'h_none': 'none', 'h_num': 'num', 'h_int': 'num', 'h_str': 'str', 'h_list': ('list', 'num'), 'h_strs': ('list', 'str'), 'h_dict': ('dict', 'num'), 'h_bool': 'bool',
+HOST_TYPES = {'h_float': 'xnum', 'h_big': 'num', 'h_t': 'num', 'h_dexp': 'num', 'h_long': ('list', 'num'), 'h_ustr': 'str', 'h_none': 'none', 'h_num': 'num', 'h_int': 'num', 'h_str': 'str', 'h_list': ('list', 'num'), 'h_strs': ('list', 'str'), 'h_dict': ('dict', 'num'), 'h_bool': 'bool',
               'h_nested': ('list', ('list', 'num'))}
 
 
 def gen_program(r, max_lines=8, depth=4, fault_rate=0.15):
+    if r.random() < 0.1:
+        depth += 3            # now and then much deeper expressions than usual
     e = Env(r)
     e.vars.update(HOST_TYPES)
-    e.lens.update({'h_list': 3, 'h_strs': 3, 'h_nested': 2})
+    e.lens.update({'h_list': 3, 'h_strs': 3, 'h_nested': 2, 'h_long': 300})
     e.keys.update({'h_dict': ['"a"', '"b"']})
     e.want_fault = r.random() < fault_rate
     fault_kind = r.choice(FAULTS) if e.want_fault else None
